@@ -107,7 +107,8 @@ class Ctx:
 
     def write_replay(self, name, body):
         """body: python source of a stand-alone script (exit 1 = violation reproduces)."""
-        safe = ''.join(c if c.isalnum() or c in '-_.' else '_' for c in name)[:100]
+        safe = ''.join(c if c.isalnum() or c in '-_.' else '_' for c in name)[:90]
+        safe += '_' + hashlib.sha1(name.encode()).hexdigest()[:8]     # names differing only in punctuation stay distinct
         path = os.path.join(REPLAYS, '%s_%s.py' % (self.prop, safe))
         with open(path, 'w') as f:
             f.write(body)
